@@ -35,6 +35,9 @@ func extraRules(c *Ctx, want map[string]bool) {
 	if want["R11c"] {
 		validatorCoverage(c)
 	}
+	if want["R08e"] {
+		tornFileProtection(c)
+	}
 }
 
 // ---------------------------------------------------------------- R01g
@@ -586,4 +589,85 @@ func validatorCoverage(c *Ctx) {
 		x.Run(newSt())
 		R.Check(nsucc > 0, "R11c", c.Cfg+"validate.maybeNilDigest:success-returns", "", "success returns found", "none")
 	}
+}
+
+// ---------------------------------------------------------------- R08e
+
+// tornFileProtection: files are created under the very name the start-up loader
+// indexes (R04e), so a kill during a write leaves a half-written file that the
+// next start indexes by its length.  Such a file must not be served: every
+// success exit of availableOrTryProxy is classified by what it serves
+// (compressed CAS, legacy ".v1" CAS, AC/RAW) and must have passed a check that
+// the file is complete.  Only the casblob header (chunk table written last,
+// then fsync; R08a/R08d) is such a check.
+func tornFileProtection(c *Ctx) {
+	R := c.R
+	R.Rule("R08e", "E2", "no half-written file is served after a restart: files carry their final, loader-accepted name from creation, so whatever availableOrTryProxy serves must have been validated for completeness (the casblob header check); classes: compressed CAS, legacy CAS, AC/RAW", 3)
+	fi := c.P.MustFunc(R, "R08e", kAvail)
+	if fi == nil {
+		return
+	}
+	cas := constOfKind(c, "CAS")
+	verdict := map[string]bool{}
+	where := map[string]string{}
+	traces := map[string][]string{}
+	var b *Base
+	b = NewBase(Hooks{
+		Call: func(x *Exec, call *ast.CallExpr, lhs []ast.Expr, s St) ([]St, bool) {
+			k := calleeKey(x.Fn.Info, call)
+			if (k == "casblob.GetZstdReadCloser" || k == "casblob.GetUncompressedReadCloser") && len(lhs) == 2 {
+				return b.ForkErr(x, lhs, 1, s, func(ok St) St { return ok.Set("hdr", "1") }, nil), true
+			}
+			if len(lhs) >= 1 {
+				if tv := x.Fn.Info.TypeOf(lhs[len(lhs)-1]); tv != nil && tv.String() == "error" {
+					return b.ForkErr(x, lhs, len(lhs)-1, s, nil, nil), true
+				}
+			}
+			return nil, false
+		},
+		Exit: func(x *Exec, ret *ast.ReturnStmt, s St) {
+			if ret == nil || len(ret.Results) != 4 || RetNil(x.Fn, s, 0) == "nil" || RetNil(x.Fn, s, 3) == "nonnil" {
+				return
+			}
+			isCAS, legacy := "", ""
+			for a, v := range s.m {
+				if strings.HasPrefix(a, "p:#"+cas+"==kind@") {
+					isCAS = v
+				}
+				if strings.HasPrefix(a, "b:item@") && strings.HasSuffix(a, ".legacy") {
+					legacy = v
+				}
+			}
+			class := "ac-raw"
+			switch {
+			case isCAS == "T" && legacy == "true":
+				class = "cas-legacy"
+			case isCAS == "T" && legacy == "false":
+				class = "cas-compressed"
+			case isCAS == "T":
+				class = "cas-unknown-layout"
+			}
+			ok := s.Get("hdr") == "1"
+			if prev, seen := verdict[class]; !seen || (prev && !ok) {
+				verdict[class] = ok
+				where[class] = c.P.Pos(ret.Pos())
+				if !ok {
+					traces[class] = x.Trace()
+				}
+			}
+		},
+	})
+	x := NewExec(c.P.FlowOf(fi), b)
+	x.Run(newSt())
+	classes := []string{}
+	for k := range verdict {
+		classes = append(classes, k)
+	}
+	sort.Strings(classes)
+	for _, class := range classes {
+		R.Check(verdict[class], "R08e", c.Cfg+"availableOrTryProxy:serve:"+class+":complete-file", where[class],
+			"a "+class+" entry is served only after a completeness check of its file",
+			"a "+class+" file is opened and served as it is: a file that a kill left half-written (it already carries its final name and is indexed by its length at the next start) is served as if it were a complete entry", traces[class]...)
+	}
+	R.Check(len(classes) >= 3, "R08e", c.Cfg+"availableOrTryProxy:serve:classes", "", fmt.Sprintf("the serving exits were classified: %v", classes), "fewer than three classes of served entries found")
 }
